@@ -86,7 +86,7 @@ def _corpus_chunk(items):
         sql, dia, seed = it["sql"], it["dialect"], it["seed"]
         rnd = random.Random(seed)
         try:
-            toks, viol = Lexer(dialect=dia).lex(sql)
+            toks, viol = Lexer(dialect="ansi" if dia == "non-validating" else dia).lex(sql)
         except Exception:  # noqa
             continue
         toks = [t for t in toks if t.raw != ""]
@@ -107,6 +107,25 @@ def _corpus_chunk(items):
                 variants.append(("newline", "".join(t.raw if k != i else "\n" for k, t in enumerate(toks))))
                 variants.append(("line_comment", "".join(t.raw if k != i else " -- c;x\n" for k, t in enumerate(toks))))
         variants.append(("upper", "".join(t.raw.upper() if t.type == "word" else t.raw for t in toks)))
+        # quoting one lower-case part of a dotted name (a part followed by a dot is a qualifier, never a function or keyword)
+        qc = ("`", "`") if dia in ("mysql", "mariadb", "bigquery", "hive", "sparksql", "databricks", "doris", "starrocks", "clickhouse", "impala") \
+            else ("[", "]") if dia == "tsql" else ('"', '"')
+        FORMATS = {"json", "parquet", "csv", "orc", "delta", "text", "avro", "jdbc", "binaryfile"}      # spark: SELECT * FROM json.`path` names a file format
+        parts = [i for i, t in enumerate(toks) if t.type == "word" and t.raw == t.raw.lower() and t.raw.isidentifier() and i + 1 < len(toks) and t.raw not in FORMATS
+                 and toks[i + 1].raw == "." and (i == 0 or toks[i - 1].raw not in ("@", "$", ":"))]
+        for i in (rnd.sample(parts, min(len(parts), it["n"])) if parts else []):
+            variants.append(("quote_one_part", "".join(t.raw if k != i else qc[0] + t.raw + qc[1] for k, t in enumerate(toks))))
+        # a line break between the words of a multi-word join
+        jw = [i for i, t in enumerate(toks) if t.type in ("whitespace",) and 0 < i < len(toks) - 1
+              and toks[i - 1].raw.lower() in ("left", "right", "full", "inner", "cross", "outer", "natural") and toks[i + 1].raw.lower() in ("join", "outer")]
+        if jw:
+            variants.append(("join_words_on_two_lines", "".join(t.raw if k not in jw else "\n" for k, t in enumerate(toks))))
+            variants.append(("join_words_tab", "".join(t.raw if k not in jw else "\t" for k, t in enumerate(toks))))
+        # a comment directly inside the brackets of every nested query
+        ob = [i for i, t in enumerate(toks) if t.raw == "(" and any(x.raw.lower() in ("select", "with") for x in toks[i + 1:i + 3] if x.type == "word")]
+        if ob:
+            variants.append(("comment_after_open_bracket", "".join(t.raw + (" /* c;x */ " if k in ob else "") for k, t in enumerate(toks))))
+            variants.append(("line_comment_after_open_bracket", "".join(t.raw + (" -- c;x\n" if k in ob else "") for k, t in enumerate(toks))))
         variants.append(("semicolons", sql.rstrip().rstrip(";") + ";;"))
         # two rewrites together: extra semicolons with a comment between them
         variants.append(("semicolons_block_comment", sql.rstrip().rstrip(";") + "; /* c */ ;"))
@@ -123,7 +142,7 @@ def _corpus_chunk(items):
         for kind, text in variants:
             if text == sql:
                 continue
-            if not stmt_drv.accepts(text, dia):
+            if not stmt_drv.accepts(text, "ansi" if dia == "non-validating" else dia):
                 out.append({"skip": True})
                 continue
             d = drive.dump(text, dia, metadata=it["metadata"], want_graph=False)
@@ -137,12 +156,29 @@ def corpus_part(chk, quick, rnd):
     import multiprocessing as mp
     from .. import features, inputs
     items = [dict(c, seed=rnd.randrange(1 << 30), n=2 if quick else 12) for c in inputs.corpus_items() if c["origin"] == "tests" or not quick]
+    # the statements the repository's tests also give to the sqlparse analyzer: a share of them under that analyzer too
+    from .. import corpus as _corpus
+    nv = [c for c in _corpus.harvest() if c.get("sqlparse") and c["origin"] == "tests" and c["dialect"] == "ansi"]
+    rnd.shuffle(nv)
+    items += [{"sql": c["sql"], "dialect": "non-validating", "metadata": c["metadata"], "origin": c["origin"], "seed": rnd.randrange(1 << 30), "n": 2 if quick else 12}
+              for c in nv[:120 if quick else len(nv)]]
+    # shapes the corpus lacks: a query nested in the ELSE branch of a CASE, in a function argument inside an expression, in doubled
+    # brackets, below a bracketed condition, in an ON condition; a three-part name; a multi-word join
+    extra = ["insert into x select case when a.c > 0 then 1 else (select max(d) from s.q) end as m from t1 a",
+             "insert into x select a.c + coalesce((select max(d) from s.q), 0) as m from t1 a left outer join t2 b on a.i = b.i",
+             "insert into x select ((select max(d) from s.q)) as m, a.e from db1.sch1.t1 a",
+             "insert into x select case when (a.d = coalesce(((select max(zc) from zt)), 0)) then 1 else 0 end as k from s.a a",
+             "insert into x select a.c from t1 a inner join t2 b on a.i in (select i from t3) full outer join db1.sch1.t4 c on a.i = c.i"]
+    pinned = [{"sql": q, "dialect": d, "metadata": None, "origin": "pinned", "seed": rnd.randrange(1 << 30), "n": 24} for q in extra for d in ("ansi", "non-validating")]
     if quick:
         rnd.shuffle(items)
+        items = pinned + items
         # statements with a query nested in an expression (scalar subqueries: text handed to a second parser) are always in,
         # rewritten at many boundaries
         nested = [dict(c, n=24) for c in items if "scalar_subquery_in_select_list" in (features.features(c["sql"], c["dialect"]) or [])][:12]
-        items = nested + items[:220]
+        items = nested + items[:220 + len(pinned)]
+    else:
+        items = pinned + items
     pool = mp.Pool(16)
     try:
         res = pool.map(_corpus_chunk, stmt_variants.chunks(items, 96))
